@@ -14,9 +14,10 @@ public/handler root that reaches it (h18.site_verdict); proofs are value ranges 
 import re
 
 from ..core import (AnalysisBroken, Inliner, canon, strip, strip_load, last_member, must_pass, norm_cond, walk,
-                    forward, lvalue_steps, lvalue_root, names_of)
+                    forward, lvalue_steps, lvalue_root, names_of, subst, PRIMITIVES, _open_coded_list_empty)
 from .. import generic, roles
-from ..analyses import is_call, atoms_imply, path_to, exits_of, delta_analysis, is_fail, locksets, held
+from ..analyses import (is_call, atoms_imply, path_to, exits_of, delta_analysis, is_fail, locksets, held, list_empty_test,
+                        callback_kind)
 from .c11 import null_rule
 from . import h18
 from .h18 import view_of, path_key, var_name, INF
@@ -104,7 +105,7 @@ def run(ctx):
     ctx.rule('R-C18a.refcnt', 'shared kick descriptor: reference count balanced on every path incl. failure paths; '
                               'every change of the count is made under one common mutex', floor=3)
     ctx.rule('R-C18b', 'INDEX-GUARD: every subscript of a slot array by a descriptor\'s slot index is on a path that implies '
-                       'index != -1 (or the index is the value the slot counter had before its increment)', floor=4)
+                       'index != -1 (or the index is the value the slot counter had before its increment)', floor=3)
     ctx.rule('R-C18d', 'registered descriptors are made close-on-exec and non-blocking on every success path', floor=4)
     ctx.rule('R-C18e', 'public/private twin structs agree on the user-visible prefix (names, types, offsets) and the '
                        'private struct fits in the public one', floor=3)
@@ -116,7 +117,7 @@ def run(ctx):
     ctx.section(twins)
     ctx.section(dead_frames)
     ctx.section(lambda c: null_rule(c, 'R-C18g', ANCHOR_FILES))
-    ctx.section(lambda c: generic.init_complete(c, 'R-C18h', kinds={k['rec'] for k in generic.OBJECT_KINDS} - {'iv_inotify', 'iv_inotify_watch'}))
+    ctx.section(lambda c: h18.init_complete(c, 'R-C18h', kinds={k['rec'] for k in generic.OBJECT_KINDS} - {'iv_inotify', 'iv_inotify_watch'}))
     ctx.section(method_resources, prog)
     ctx.section(module_pairs, prog)
     ctx.section(refcount, prog)
@@ -151,87 +152,95 @@ def _intval(x):
 
 
 def fd_modes(ctx):
-    """On every success path of registration the descriptor number stored in the iv_fd has its flag set:
-    either fcntl(fd->fd, F_SETxx, v) ran with the bit or-ed into v, or the path crossed the edge on which
-    the flags fetched by fcntl(fd->fd, F_GETxx) already have the bit.  The two setters are ordinary helpers
-    (inlined); nothing depends on their names or on where they are called from."""
+    """On every path of registration that ends in success the descriptor number stored in the iv_fd has its flag
+    set: either fcntl(fd->fd, F_SETxx, v) ran with the bit or-ed into v, or the path crossed the edge on which the
+    flags fetched by fcntl(fd->fd, F_GETxx) already have the bit.  Everything between the public entry point and the
+    fcntl calls is inlined: nothing depends on the names of the helpers, on how many there are, on whether one
+    helper serves both modes (command and bit are then parameters that became the caller's constants, or are read
+    from a const table, possibly in a loop over that table, which is followed iteration by iteration), or on whether
+    the two public entry points share one body.  The facts are carried along the paths (h18.path_must):
+      ('fetched', n, mode)  local n holds, unmodified, what fcntl(fd->fd, F_GETxx) returned
+      ('ored', n, mode)     local n has the mode's bit or-ed in
+      ('set', mode)         the descriptor has the mode
+    and success is decided per path (the returned value is 0 / provably non-zero on that path)."""
     prog = ctx.prog
     for r in ('iv_fd_register', 'iv_fd_register_try'):
         f = prog.fn(r)
         g = Inliner(prog, expand_methods=True).inline(f)
         V = view_of(prog, g)
-        res = delta_analysis(g, [])
-        okrets = [e for (e, d, rc, p) in res.rets if e is not None and not is_fail(rc)]
-        pts = [(e['_b'], e['_i']) for e in okrets]
-        if g.ret == 'void':
-            pts.append((g.exit, 0))
-        if not pts:
-            raise AnalysisBroken('%s: no success exit' % r)
 
         def is_regfd(x):
             return last_member(V.resolve(x)) in REGISTERED_FD
 
+        # loop indices over const tables: kept apart by path_must, so that each iteration reads one table entry
+        tidx = set()
+        for e in g.events():
+            for x in walk(e):
+                if x.get('k') == 'index' and V._const_global(strip_load(x['base'])) is not None and var_name(x['idx']):
+                    tidx.add(var_name(x['idx']))
+
+        def cint(x, e, env):
+            return V.const_int(x, (e['_b'], e['_i']) if isinstance(e, dict) else e, env)
+
+        def has_bit(x, bit, e, env):
+            n = cint(x, e, env)
+            return n is not None and bool(n & bit)
+
+        def ors_bit(x, bit, e, env, fact, mode):
+            """value x has the bit: a constant with it, `y | c` with it, a local known to have it"""
+            x0 = strip(x)
+            if has_bit(x0, bit, e, env):
+                return True
+            if isinstance(x0, dict) and x0.get('k') == 'bin' and x0['op'] == '|':
+                return any(ors_bit(s_, bit, e, env, fact, mode) for s_ in (x0['l'], x0['r']))
+            n = var_name(x0)
+            return n is not None and ('ored', n, mode) in fact
+
+        def tr(e, fact, env):
+            if e['ev'] == 'store' and strip(e['lhs']).get('k') == 'var':
+                n = var_name(e['lhs'])
+                keep = frozenset(a for a in fact if not (a[0] in ('fetched', 'ored') and a[1] == n))
+                add = set()
+                for (mode, getc, setc, bit) in FD_MODES:
+                    if e['op'] == '|=' and has_bit(e.get('rhs'), bit, e, env):
+                        add.add(('ored', n, mode))
+                        add |= {a for a in fact if a[0] == 'ored' and a[1] == n}
+                    elif e['op'] == '=' and 'rhs' in e:
+                        r0 = strip(e['rhs'])
+                        if isinstance(r0, dict) and r0.get('k') == 'call' and r0.get('callee') == 'fcntl' and len(r0['args']) >= 2 \
+                                and cint(r0['args'][1], e, env) == getc and is_regfd(r0['args'][0]):
+                            add.add(('fetched', n, mode))
+                        elif ors_bit(r0, bit, e, env, fact, mode):
+                            add.add(('ored', n, mode))
+                return keep | add
+            if e['ev'] == 'call' and is_call(e, 'fcntl') and len(e['args']) >= 3 and is_regfd(e['args'][0]):
+                for (mode, getc, setc, bit) in FD_MODES:
+                    if cint(e['args'][1], e, env) == setc and ors_bit(e['args'][2], bit, e, env, fact, mode):
+                        fact = fact | {('set', mode)}
+                        sites.setdefault(mode, set()).add(e['loc'])
+            return fact
+
+        def edge(blk, si, atoms, fact, env):
+            pt = (blk.id, len(blk.events))
+            for (op, lc, rc, l, r_) in atoms:
+                l0 = strip(l) if isinstance(l, dict) else None
+                if op == '!=' and rc == '0' and isinstance(l0, dict) and l0.get('k') == 'bin' and l0['op'] == '&':
+                    for (a, b_) in ((l0['l'], l0['r']), (l0['r'], l0['l'])):
+                        n = var_name(a)
+                        for (mode, getc, setc, bit) in FD_MODES:
+                            if n and ('fetched', n, mode) in fact and has_bit(b_, bit, pt, env):
+                                fact = fact | {('set', mode)}
+            return fact
+        sites = {}
+        rets = h18.path_must(g, frozenset(), tr, lambda a, b: a & b, edge, extra=tidx, with_env=True)
+        good = [(e, fact) for (e, fact, cls) in rets if cls != 'fail']
+        if not good:
+            raise AnalysisBroken('%s: no success exit' % r)
         for (mode, getc, setc, bit) in FD_MODES:
-            def bit_ored_in(x, e):
-                x0 = strip(x)
-                if ((_intval(x0) or 0) & bit):
-                    return True
-                if isinstance(x0, dict) and x0.get('k') == 'bin' and x0['op'] == '|':
-                    if any((_intval(s) or 0) & bit for s in (x0['l'], x0['r'])):
-                        return True
-                n = var_name(x0)
-                if n is None:
-                    return False
-                def sets(s):
-                    if s['ev'] != 'store' or var_name(s['lhs']) != n or strip(s['lhs']).get('k') != 'var':
-                        return False
-                    if s['op'] == '|=' and ((_intval(s.get('rhs')) or 0) & bit):
-                        return True
-                    r0 = strip(s.get('rhs')) if s['op'] == '=' and 'rhs' in s else None
-                    return isinstance(r0, dict) and r0.get('k') == 'bin' and r0['op'] == '|' and \
-                        any((_intval(t) or 0) & bit for t in (r0['l'], r0['r']))
-                def other(s):
-                    return s['ev'] == 'store' and strip(s['lhs']).get('k') == 'var' and var_name(s['lhs']) == n and not sets(s)
-                mp = must_pass(g, sets, kill=other)
-                return bool(mp.get((e['_b'], e['_i'])))
-
-            def set_site(e):
-                return is_call(e, 'fcntl') and e['ev'] == 'call' and len(e['args']) >= 3 and _intval(e['args'][1]) == setc \
-                    and is_regfd(e['args'][0]) and bit_ored_in(e['args'][2], e)
-
-            fetched = {}
-
-            def holds_fetched_flags(n, point):
-                """local n holds, unmodified, what fcntl(fd->fd, F_GETxx) returned"""
-                if n not in fetched:
-                    def isdef(s):
-                        return s['ev'] == 'store' and strip(s['lhs']).get('k') == 'var' and var_name(s['lhs']) == n
-                    def fetch(s):
-                        r0 = strip(s.get('rhs')) if isdef(s) and s['op'] == '=' and 'rhs' in s else None
-                        return isinstance(r0, dict) and r0.get('k') == 'call' and r0.get('callee') == 'fcntl' \
-                            and len(r0['args']) >= 2 and _intval(r0['args'][1]) == getc and is_regfd(r0['args'][0])
-                    fetched[n] = must_pass(g, fetch, kill=lambda s: isdef(s) and not fetch(s))
-                return bool(fetched[n].get(point))
-
-            def already(blk, si):
-                if not blk.term or blk.term.get('cond') is None or len(blk.succ) != 2:
-                    return False
-                for (op, lc, rc, l, r_) in norm_cond(blk.term['cond'], si == 0):
-                    l0 = strip(l)
-                    if op == '!=' and rc == '0' and isinstance(l0, dict) and l0.get('k') == 'bin' and l0['op'] == '&':
-                        for (a, b) in ((l0['l'], l0['r']), (l0['r'], l0['l'])):
-                            n = var_name(a)
-                            if (_intval(b) or 0) & bit and n and holds_fetched_flags(n, (blk.id, len(blk.events))):
-                                return True
-                return False
-
-            sites = {id(e) for e in g.events() if set_site(e)}
-            _, ev_in = forward(g, False, lambda e, s: True if id(e) in sites else s, lambda a, b: a and b,
-                               edge=lambda blk, si, s: True if already(blk, si) else s)
-            ok = all(ev_in.get(p, False) for p in pts)
+            ok = all(('set', mode) in fact for (e, fact) in good)
             ctx.ob('R-C18d', '%s:%s' % (r, mode), ok, loc=f.loc,
-                   detail='fcntl(fd->fd, %s, flags | %#o) or the already-set edge on every path to a success return (%d setting sites)'
-                          % ('F_SETFD' if setc == 2 else 'F_SETFL', bit, len(sites)), fn=f.q)
+                   detail='fcntl(fd->fd, %s, flags | %#o) or the already-set edge on every path that ends in success (%d setting sites)'
+                          % ('F_SETFD' if setc == 2 else 'F_SETFL', bit, len(sites.get(mode, ()))), fn=f.q)
 
 
 # --------------------------------------------------------------------------
@@ -263,10 +272,14 @@ def twins(ctx):
 # R-C18f (also used by C06: keep signature and instance naming)
 # --------------------------------------------------------------------------
 
-def _frame_stores(f):
+LIST_LINKS = (('iv_list_head', 'next'), ('iv_list_head', 'prev'))
+
+
+def _frame_stores(f, chained=False):
+    """stores of the address of a local into memory that outlives the frame: (event, the local's variable node)"""
     out = []
     for e in list(f.events()):
-        if e['ev'] != 'store' or e.get('op') != '=' or e.get('chain'):
+        if e['ev'] != 'store' or e.get('op') != '=' or (e.get('chain') and not chained):
             continue
         r = strip(e['rhs'])
         if not (isinstance(r, dict) and r.get('k') == 'addr'):
@@ -284,12 +297,27 @@ def _frame_stores(f):
     return out
 
 
-def _frame_cleared(f, e):
-    """the location e stored a frame address into holds a non-stack value again at every return of f"""
+def _is_list_head_var(v):
+    return (v.get('record') == 'iv_list_head' and not v.get('ptr')) or str(v.get('type', '')).replace('const ', '').strip() == 'struct iv_list_head'
+
+
+def _addr_of_local(x, name):
+    x = strip(x)
+    if isinstance(x, dict) and x.get('k') == 'addr':
+        v = strip(x['e'])
+        return isinstance(v, dict) and v.get('k') == 'var' and v['name'] == name
+    return False
+
+
+def _frame_cleared(f, e, vname=None):
+    """the location e stored a frame address into holds a non-stack value again at every return of f, or the return is
+    reached over an edge on which the published local itself reads NULL although this function never stores NULL into
+    it: the holder wrote through the published pointer when it went away (the `*this->term = NULL` protocol)"""
     l = strip(e['lhs'])
     lc = canon(e['lhs'])
-    base = strip(l['base'])
-    basevar = base['name'] if isinstance(base, dict) and base.get('k') == 'var' else None
+    self_nulled = vname is None or any(
+        x['ev'] == 'store' and strip(x['lhs']).get('k') == 'var' and var_name(x['lhs']) == vname and 'rhs' in x
+        and canon(x['rhs']) in ('NULL', '0') for x in f.events())
 
     def tr(x, s):
         if x is e:
@@ -302,9 +330,9 @@ def _frame_cleared(f, e):
         return s
 
     def edge(blk, si, s):
-        if s is False and basevar and blk.term and blk.term.get('cond') is not None and len(blk.succ) == 2:
+        if s is False and not self_nulled and blk.term and blk.term.get('cond') is not None and len(blk.succ) == 2:
             for (op, a, b, _, _) in norm_cond(blk.term['cond'], si == 0):
-                if op == '==' and a == basevar and b == '0':
+                if op == '==' and a == vname and b == '0':
                     return True      # the holder object itself is gone (unregistered)
         return s
 
@@ -319,29 +347,129 @@ def _frame_cleared(f, e):
     return not [p for p in pts if ev_in.get(p) is False]
 
 
+def _implies_empty(x, pol, lname):
+    """condition x having truth value `pol` implies that the list headed by the local `lname` is empty
+    (iv_list_empty(&L), L.next == &L, L.prev == &L under negations, !!, comparisons with 0, conjunctions)"""
+    def conv(n):
+        if n.get('k') == 'bin' and n.get('op') in ('==', '!='):
+            return _open_coded_list_empty(n)
+        if n.get('k') == 'cond' and _intval(n.get('a')) is not None and _intval(n.get('b')) is not None:
+            # `c ? 1 : 0` is c, `c ? 0 : 1` is !c
+            ta, tb = bool(_intval(n['a'])), bool(_intval(n['b']))
+            if ta != tb:
+                c = subst(n['c'], conv)
+                return c if ta else {'k': 'un', 'op': '!', 'e': c}
+        return None
+    for a in norm_cond(subst(x, conv), pol):
+        if a[0] != 'const' and list_empty_test(a) == 'empty' and _addr_of_local(strip(a[3])['args'][0], lname):
+            return True
+    return False
+
+
+def _list_drained(f, e, lname):
+    """e links the on-stack list head `lname` into heap nodes (X->next/prev = &L).  The frame address is gone from the
+    heap when the list is empty again: on every path from e to a return, the last thing known about L is that it is
+    empty -- an edge on which iv_list_empty(&L) / L.next == &L holds, or on which a flag holds that was assigned that
+    test -- and L was not linked again since (no store of &L, no call that is handed &L other than an emptiness test
+    or an unlink of a node).  Code that runs user callbacks cannot add to L unless L's address is published in
+    non-link memory (then a callback forgets what is known)."""
+    published = any(x['ev'] == 'store' and 'rhs' in x and _addr_of_local(x['rhs'], lname) and last_member(x['lhs']) not in LIST_LINKS
+                    for x in f.events())
+
+    def relinks(x):
+        if x['ev'] == 'store' and 'rhs' in x and _addr_of_local(x['rhs'], lname):
+            return True
+        if x['ev'] in ('call', 'enter') and any(_addr_of_local(a, lname) for a in x.get('args', [])):
+            return x.get('callee') not in ('iv_list_empty',)
+        return False
+
+    def tr(x, S):
+        if x is e:
+            return frozenset()
+        if S is None:
+            return None
+        if relinks(x):
+            return frozenset()
+        if x['ev'] == 'store' and strip(x['lhs']).get('k') == 'var':
+            n = var_name(x['lhs'])
+            S = frozenset(a for a in S if not (isinstance(a, tuple) and a[1] == n))
+            if x.get('op') == '=' and 'rhs' in x:
+                for pol in (True, False):
+                    if _implies_empty(x['rhs'], pol, lname):
+                        S = S | {('F', n, 1 if pol else -1)}
+            return S
+        if x['ev'] == 'call' and 'fnexpr' in x and published and (callback_kind(x) or ('?',))[0] != 'method':
+            return frozenset()
+        return S
+
+    def edge(blk, si, S):
+        if S is None or not blk.term or blk.term.get('cond') is None or len(blk.succ) != 2:
+            return S
+        c = blk.term['cond']
+        if _implies_empty(c, si == 0, lname):
+            return S | {'E'}
+        for (op, lc, rc, l, r) in norm_cond(c, si == 0):
+            if rc == '0' and op in ('!=', '=='):
+                for a in S:
+                    if isinstance(a, tuple) and a[1] == lc and ((a[2] == 1) == (op == '!=')):
+                        return S | {'E'}
+        return S
+
+    def jn(a, b):
+        if a is None:
+            return b
+        if b is None:
+            return a
+        return a & b
+    _, ev_in = forward(f, None, tr, jn, edge=edge, start=e['_b'])
+    pts = [(pb, pi) for (pb, pi, _) in exits_of(f)] + [(f.exit, 0)]
+    return not [p for p in pts if ev_in.get(p) is not None and 'E' not in ev_in[p]]
+
+
 def dead_frames(ctx):
+    """Sites: every store of `&local` into memory that is not itself a local, in the function that owns the local --
+    written there, or in a helper that was handed the address (the helper is inlined; the site keeps the owner's
+    name).  Obligation per site: a published pointer is overwritten with a non-stack value on every path to return
+    (or the holder is gone); an on-stack list head that was linked into heap nodes is empty again (_list_drained)."""
     prog = ctx.prog
     for f in sorted(prog.all_funcs(), key=lambda f: f.q):
         done = {}
-        for (e, v) in _frame_stores(f):
+        own = {d['name'] for d in f.events() if d['ev'] == 'decl'}
+        sites = [(f, e, v) for (e, v) in _frame_stores(f)]
+        hands_on = any(e['ev'] == 'call' and e.get('callee') and e['callee'] not in PRIMITIVES
+                       and any(_addr_of_local(a, n) for a in e.get('args', []) for n in own)
+                       and (prog.resolve(prog.unit_of(f), e['callee']) is not None and prog.resolve(prog.unit_of(f), e['callee']).blocks)
+                       for e in f.events()) if own else False
+        if hands_on:
+            try:
+                g0 = roles.inlined(prog, f)
+                sites += [(g0, e, v) for (e, v) in _frame_stores(g0, chained=True) if e.get('chain') and v['name'] in own]
+            except AnalysisBroken:
+                pass
+        for (h, e, v) in sites:
             lc = canon(e['lhs'])
-            ok = _frame_cleared(f, e)
-            if not ok:
+            link = last_member(e['lhs']) in LIST_LINKS and _is_list_head_var(v)
+            check = (lambda fn_, ev_: _list_drained(fn_, ev_, v['name'])) if link else (lambda fn_, ev_: _frame_cleared(fn_, ev_, v['name']))
+            ok = check(h, e)
+            if not ok and h is f:
                 # the clearing store may live in a helper: same obligation with the helpers' effects visible
                 try:
                     g = roles.inlined(prog, f)
                     twins_ = [x for (x, _) in _frame_stores(g) if x.get('loc') == e.get('loc')]
-                    ok = bool(twins_) and all(_frame_cleared(g, x) for x in twins_)
+                    ok = bool(twins_) and all(check(g, x) for x in twins_)
                 except AnalysisBroken:
                     ok = False
             k = (lc, e['loc'])
             done[k] = done.get(k, True) and ok
-            done.setdefault(('v', k), v['name'])
+            done.setdefault(('v', k), (v['name'], link))
         for k, ok in done.items():
             if k[0] == 'v':
                 continue
+            vn, link = done[('v', k)]
             ctx.ob('R-C18f', '%s:%s' % (f.name, k[0]), ok, loc=k[1],
-                   detail='%s = &%s (a local) is overwritten with a non-stack value on every path to return' % (k[0], done[('v', k)]), fn=f.q)
+                   detail=('%s = &%s links an on-stack list head into heap nodes: the list is empty again (and was not linked since) on '
+                           'every path to return' % (k[0], vn)) if link else
+                          ('%s = &%s (a local) is overwritten with a non-stack value on every path to return' % (k[0], vn)), fn=f.q)
 
 
 # --------------------------------------------------------------------------
@@ -425,13 +553,15 @@ def method_resources(ctx, prog):
             unit = prog.unit_of(f)
             kind = lambda x, tn, unit=unit: prog._c18_kind_of(x, unit, tn)
             tainted = _tainted(g, kind)
+            vg = view_of(prog, g)
             for e in g.events():
                 if e['ev'] == 'store' and e.get('op') == '=' and strip(e['lhs']).get('k') != 'var' and 'rhs' in e:
                     k = kind(e['rhs'], tainted)
-                    st_ = lvalue_steps(e['lhs'])
-                    pk = path_key(e['lhs'])
+                    lhs = h18.deref_norm(vg, e['lhs'])      # `*out = fd` with out = &st->...: a store to the state field
+                    st_ = lvalue_steps(lhs)
+                    pk = path_key(lhs)
                     if k and st_ and st_[-1][0] == 'iv_state' and pk:
-                        resources.setdefault(pk, (k, e, f, canon(e['lhs'])))
+                        resources.setdefault(pk, (k, e, f, canon(lhs)))
         if not resources:
             raise AnalysisBroken('method %s: no acquired resource found in its state' % t)
         fde = prog.resolve(*slots['deinit'])
@@ -439,12 +569,13 @@ def method_resources(ctx, prog):
         vde = view_of(prog, gde)
         for pk, (kind_, se, sf, lc) in sorted(resources.items(), key=lambda kv: kv[1][3]):
             def released(e, pk=pk, kind_=kind_):
-                return e['ev'] == 'call' and is_call(e, RELEASE[kind_]) and e['args'] and path_key(vde.resolve(e['args'][0])) == pk
+                return e['ev'] == 'call' and is_call(e, RELEASE[kind_]) and e['args'] and \
+                    path_key(vde.resolve(h18.deref_norm(vde, e['args'][0]))) == pk
 
             def edge(blk, si, s, pk=pk):
                 if blk.term and blk.term.get('cond') is not None and len(blk.succ) == 2:
                     for (op, a, b, l, r) in norm_cond(blk.term['cond'], si == 0):
-                        if isinstance(l, dict) and path_key(vde.resolve(l)) == pk and \
+                        if isinstance(l, dict) and path_key(vde.resolve(h18.deref_norm(vde, l))) == pk and \
                                 ((op == '==' and b in ('-1', '0')) or (op == '<' and b == '0')):
                             return True     # nothing was acquired
                 return s
@@ -468,7 +599,7 @@ def method_resources(ctx, prog):
             n = var_name(x) if strip(x).get('k') == 'var' else None
             if n:
                 return ('var', n)
-            return path_key(vi.resolve(x))
+            return path_key(vi.resolve(h18.deref_norm(vi, x)))
 
         def tr(e, S):
             if e['ev'] == 'store' and e.get('op') == '=' and 'rhs' in e:
@@ -544,6 +675,60 @@ def _must_unless_no_state(g, pred, sv, kill=None):
     return ev_in
 
 
+def _table_callees(V, e, env=None):
+    """names of the functions an indirect call through a const table of function pointers can enter (`T[i](...)`, the
+    index anywhere in its range at the call, or as the path being followed has it), or None"""
+    fx = e.get('fnexpr')
+    if not isinstance(fx, dict):
+        return None
+    x = strip_load(fx)
+    if isinstance(x, dict) and x.get('k') == 'deref':
+        x = x['e']
+    vals = V.table_values(x, (e['_b'], e['_i']), env=env)
+    if not vals:
+        return None
+    out = []
+    for v in vals:
+        v0 = strip(v)
+        if isinstance(v0, dict) and v0.get('k') == 'addr':
+            v0 = strip(v0['e'])
+        if not (isinstance(v0, dict) and v0.get('k') == 'var' and v0.get('vk') == 'func'):
+            return None
+        out.append(v0['name'])
+    return out
+
+
+def _partners_run(prog, gT, partners, sv):
+    """[set of the module de-initialisers run] per class of paths through the tear-down gT (h18.path_must).  A call
+    through a const table of function pointers counts for the entry selected on the path being followed (a loop over
+    the table is followed iteration by iteration).  'NOSTATE': the path crossed an edge on which the state pointer is
+    NULL (nothing to tear down)."""
+    V = view_of(prog, gT)
+    tidx = set()
+    for e in gT.events():
+        for x in walk(e):
+            if x.get('k') == 'index' and V._const_global(strip_load(x['base'])) is not None and var_name(x['idx']):
+                tidx.add(var_name(x['idx']))
+
+    def tr(e, fact, env):
+        if e['ev'] != 'call':
+            return fact
+        if e.get('callee') in partners:
+            return fact | {e['callee']}
+        if 'fnexpr' in e:
+            ns = _table_callees(V, e, env)
+            if ns and len(set(ns)) == 1 and ns[0] in partners:
+                return fact | {ns[0]}
+        return fact
+
+    def edge(blk, si, atoms, fact, env):
+        for a in atoms:
+            if a[0] == '==' and a[2] == '0' and a[1] in sv:
+                return fact | {'NOSTATE'} | frozenset(partners)      # nothing to tear down on this path: all obligations met
+        return fact
+    return [fact for (e, fact, cls) in h18.path_must(gT, frozenset(), tr, lambda a, b: a & b, edge, extra=tidx, with_env=True)]
+
+
 def module_pairs(ctx, prog):
     """Anchors: the public iv_init / iv_deinit, and the function(s) iv_init hands to pthr_key_create (the
     thread-exit tear-down).  Static glue between them (a shared tear-down helper, a key-allocation helper,
@@ -552,12 +737,22 @@ def module_pairs(ctx, prog):
     partners = {p for (p, _) in MODULE_PAIRS.values() if p}
     stop = lambda t: t.name in partners or t.name in MODULE_PAIRS
     gi = Inliner(prog, stop=stop).inline(fi)
+    # spellings of the freshly allocated state block: the variable the allocation is assigned to and every local it is
+    # copied to afterwards (an allocation helper's result variable, its return temporary, the caller's variable)
     state = set()
-    for e in gi.events():
-        if e['ev'] == 'store' and 'rhs' in e and any(c.get('callee') in ('calloc', 'malloc') for c in walk(e['rhs']) if c.get('k') == 'call'):
+    changed = True
+    while changed:
+        changed = False
+        for e in gi.events():
+            if e['ev'] != 'store' or e.get('op') != '=' or 'rhs' not in e or strip(e['lhs']).get('k') != 'var':
+                continue
             n = var_name(e['lhs'])
-            if n:
+            if not n or n in state:
+                continue
+            if any(c.get('callee') in ('calloc', 'malloc') for c in walk(e['rhs']) if c.get('k') == 'call') \
+                    or var_name(e['rhs']) in state:
                 state.add(n)
+                changed = True
     if not state:
         raise AnalysisBroken('iv_init: allocation of the state block not found')
     # thread tear-down roots
@@ -577,19 +772,25 @@ def module_pairs(ctx, prog):
     if not reg:
         ctx.ob('R-C18a.module', 'iv_init:destructor-registered', False, loc=fi.loc, detail='iv_init never creates the TLS key', fn=fi.q)
     teardowns = [('iv_deinit', prog.fn('iv_deinit'))] + [('thread-exit destructor', t) for t in dtors]
+    # module initialisers: library functions with external linkage that iv_init hands the fresh state block to, called by
+    # name or through a const table of function pointers (every entry the index can select)
     inits = []
+    Vi = view_of(prog, gi)
     for e in gi.events():
-        if e['ev'] != 'call' or 'callee' not in e or not e['args'] or var_name(e['args'][0]) not in state:
+        if e['ev'] != 'call' or not e['args'] or var_name(e['args'][0]) not in state:
             continue
-        t = prog.resolve(prog.unit_of(fi), e['callee'])
-        if t is None or not t.blocks or t.static:
-            continue
-        inits.append(e)
+        names = [e['callee']] if 'callee' in e else (_table_callees(Vi, e) or [])
+        for nm in names:
+            t = prog.resolve(prog.unit_of(fi), nm)
+            if t is None or not t.blocks or t.static:
+                continue
+            if nm not in [n_ for (_, n_) in inits]:
+                inits.append((e, nm))
     if not inits:
         raise AnalysisBroken('iv_init: no per-thread module initialiser found')
     views = [(role, T, Inliner(prog, stop=stop).inline(T)) for (role, T) in teardowns]
-    for e in inits:
-        nm = e['callee']
+    ran = {role: _partners_run(prog, gT, partners, _state_exprs(gT, partners)) for (role, T, gT) in views}
+    for (e, nm) in inits:
         if nm not in MODULE_PAIRS:
             ctx.ob('R-C18a.module', 'iv_init:%s' % nm, False, loc=e['loc'],
                    detail='module initialiser without an entry in the init/deinit table (does it acquire per-thread resources?)', fn=fi.q)
@@ -600,9 +801,8 @@ def module_pairs(ctx, prog):
             ctx.ob('R-C18a.module', 'iv_init:%s' % nm, True, loc=e['loc'], detail='no tear-down needed: ' + reason, fn=fi.q)
             continue
         for (role, T, gT) in views:
-            mp = _must_unless_no_state(gT, lambda x, p=partner: x['ev'] == 'call' and is_call(x, p), _state_exprs(gT, partners))
-            ctx.ob('R-C18a.module', '%s:%s' % (role, nm), bool(mp.get((gT.exit, 0))), loc=e['loc'],
-                   detail='%s is run by %s on every path' % (partner, role), fn=T.q)
+            ctx.ob('R-C18a.module', '%s:%s' % (role, nm), bool(ran[role]) and all(partner in fact or 'NOSTATE' in fact for fact in ran[role]),
+                   loc=e['loc'], detail='%s is run by %s on every path' % (partner, role), fn=T.q)
     for (role, T, gT) in views:
         sv = _state_exprs(gT, partners)
         frees = [e for e in gT.events() if e['ev'] == 'call' and is_call(e, 'free') and e['args'] and canon(e['args'][0]) in sv]
@@ -645,20 +845,30 @@ def refcount(ctx, prog):
         seen.add(fon.q)
         inl = Inliner(prog)
         gon, goff = inl.inline(fon), inl.inline(foff)
-        # the shared count: the file-scope integer both slots step by one
+        # the shared count: the file-scope integer (a variable of its own or a member of a file-scope struct) that both
+        # slots step by one
+        def ckey(lhs):
+            r = lvalue_root(lhs)
+            if r is None or r.get('vk') not in ('global', 'staticlocal'):
+                return None
+            steps = lvalue_steps(lhs)
+            if not steps:
+                return ('global', r['name']) if strip(lhs).get('k') == 'var' else None
+            return steps[0] if len(steps) == 1 else None
+
         def stepped(g):
             out = set()
             for e in g.events():
                 if e['ev'] == 'store' and e['op'] in ('++', '--', '+=', '-='):
-                    r = lvalue_root(e['lhs'])
-                    if r is not None and r.get('vk') in ('global', 'staticlocal') and strip(e['lhs']).get('k') == 'var':
-                        out.add(r['name'])
+                    k = ckey(e['lhs'])
+                    if k is not None:
+                        out.add(k)
             return out
         ctrs = stepped(gon) & stepped(goff)
         if len(ctrs) != 1:
             raise AnalysisBroken('%s/%s: shared reference count not identified (%s)' % (fon.name, foff.name, sorted(ctrs)))
-        cname = ctrs.pop()
-        ctr = ('global', cname)
+        ctr = ctrs.pop()
+        cname = ctr[1]
         ron = delta_analysis(gon, [ctr])
         roff = delta_analysis(goff, [ctr])
         fails = [(e, d) for (e, d, rc, p) in ron.rets if is_fail(rc)]
@@ -676,7 +886,7 @@ def refcount(ctx, prog):
         for g in (gon, goff):
             ls = locksets(g)
             for e in g.events():
-                if e['ev'] == 'store' and lvalue_root(e['lhs']) is not None and lvalue_root(e['lhs'])['name'] == cname:
+                if e['ev'] == 'store' and ckey(e['lhs']) == ctr:
                     sites.append((g, e, held(ls.get((e['_b'], e['_i'])))))
         cnt = {}
         for (_, _, hs) in sites:
@@ -697,8 +907,9 @@ def refcount(ctx, prog):
 # --------------------------------------------------------------------------
 
 def slot_counter(prog):
-    """(record, field) of the slot counter of the poll arrays, by role: the field whose post-incremented
-    value becomes a descriptor's slot index (`fd->u.index = counter++`, possibly through a local)."""
+    """(record, field) of the slot counter of the poll arrays, by role: the integer field of the method state whose
+    value becomes a descriptor's slot index (`fd->u.index = counter++`, `slot = counter; counter = slot + 1;
+    fd->u.index = slot`, possibly through locals) and which the library itself steps."""
     if getattr(prog, '_c18_slotctr', None) is not None:
         return prog._c18_slotctr
     found = set()
@@ -707,32 +918,44 @@ def slot_counter(prog):
         stores = [e for e in evs if e['ev'] == 'store' and e.get('op') == '=' and 'rhs' in e and is_fd_index(e['lhs'])]
         if not stores:
             continue
+        defs = {}
+        for d in evs:
+            if d['ev'] == 'store' and d.get('op') == '=' and 'rhs' in d and strip(d['lhs']).get('k') == 'var':
+                defs.setdefault(var_name(d['lhs']), []).append(d['rhs'])
+
+        def sources(x, depth=0):
+            x = strip(x)
+            if not isinstance(x, dict) or depth > 4:
+                return
+            if x.get('k') == 'incdec':
+                yield from sources(x['e'], depth)
+            elif x.get('k') == 'member':
+                yield x
+            elif x.get('k') == 'var' and x.get('vk') in ('local', 'param'):
+                for r in defs.get(x['name'], []):
+                    yield from sources(r, depth + 1)
         for e in stores:
-            cands = [e['rhs']]
-            n = var_name(e['rhs']) if strip(e['rhs']).get('k') == 'var' else None
-            if n:
-                cands += [d['rhs'] for d in evs if d['ev'] == 'store' and d.get('op') == '=' and 'rhs' in d
-                          and strip(d['lhs']).get('k') == 'var' and var_name(d['lhs']) == n]
-            for c in cands:
-                c = strip(c)
-                if isinstance(c, dict) and c.get('k') == 'incdec' and c['op'] == '++':
-                    lm = last_member(c['e'])
-                    if lm:
-                        found.add(lm)
+            for m in sources(e['rhs']):
+                lm = last_member(m)
+                if lm and not is_fd_index(m) and lm[0] != 'iv_fd_' and (m.get('type') or 'int').replace('const ', '').strip() in ('int', 'unsigned int', 'unsigned'):
+                    found.add(lm)
+    # ... and which is stepped by the library (a counter, not a constant of the state)
+    found = {lm for lm in found if any(e.get('op') in ('++', '--', '+=', '-=', '=') for (_, e) in prog.writers_of(*lm))}
     if len(found) != 1:
         raise AnalysisBroken('slot counter of the poll arrays not identified (%s)' % sorted(found))
     prog._c18_slotctr = found.pop()
     return prog._c18_slotctr
 
 
-def _counter_valued(V, x, ctr, seen=()):
-    """x holds a (past) value of the slot counter"""
+def _counter_valued(V, x, ctr, seen=(), pt=None):
+    """x holds a (past) value of the slot counter (judged by the definitions that reach the point of use)"""
     x = strip(x)
     if last_member(x) == ctr:
         return True
     if V.is_plain_local(x) and x['name'] not in seen:
-        ds = V.defs.get(x['name'], [])
-        return bool(ds) and all(d.get('op') == '=' and 'rhs' in d and _counter_valued(V, d['rhs'], ctr, seen + (x['name'],)) for d in ds)
+        ds = V.defs_at(x['name'], pt)
+        return bool(ds) and all(d.get('op') == '=' and 'rhs' in d and
+                                _counter_valued(V, d['rhs'], ctr, seen + (x['name'],), (d['_b'], d['_i'])) for d in ds)
     return False
 
 
@@ -750,7 +973,7 @@ def _after_decrement(V, ctr):
     return V._after_dec[ctr]
 
 
-def _idx_kinds(V, x, ctr, seen=()):
+def _idx_kinds(V, x, ctr, seen=(), pt=None):
     x = strip(x)
     if not isinstance(x, dict):
         return {'other'}
@@ -761,14 +984,14 @@ def _idx_kinds(V, x, ctr, seen=()):
     if last_member(x) == ctr:
         return {'counter'}
     if V.is_plain_local(x) and x['name'] not in seen:
-        ds = V.defs.get(x['name'], [])
+        ds = V.defs_at(x['name'], pt)
         if not ds:
             return {'other'}
         out = set()
         for d in ds:
             if d.get('op') != '=' or 'rhs' not in d:
                 return {'other'}
-            out |= _idx_kinds(V, d['rhs'], ctr, seen + (x['name'],))
+            out |= _idx_kinds(V, d['rhs'], ctr, seen + (x['name'],), (d['_b'], d['_i']))
         return out
     return {'other'}
 
@@ -788,7 +1011,7 @@ def _upper_terms(V, idx, pt):
 KERNEL_FILL = {'epoll_wait': (1, 2), 'epoll_pwait': (1, 2), 'epoll_pwait2': (1, 2)}
 
 
-def _kernel_count(V, u, arr, seen=()):
+def _kernel_count(V, u, arr, seen=(), pt=None):
     """u is (a copy of) the result of a kernel call that filled the array `arr`, or a non-positive constant"""
     x = strip(u)
     if not isinstance(x, dict):
@@ -801,8 +1024,9 @@ def _kernel_count(V, u, arr, seen=()):
         spec = KERNEL_FILL.get(x.get('callee'))
         return bool(spec) and len(x['args']) > spec[0] and arr is not None and V.array_id(x['args'][spec[0]]) == arr
     if V.is_plain_local(x) and x['name'] not in seen:
-        ds = V.defs.get(x['name'], [])
-        return bool(ds) and all(d.get('op') == '=' and 'rhs' in d and _kernel_count(V, d['rhs'], arr, seen + (x['name'],)) for d in ds)
+        ds = V.defs_at(x['name'], pt)
+        return bool(ds) and all(d.get('op') == '=' and 'rhs' in d and
+                                _kernel_count(V, d['rhs'], arr, seen + (x['name'],), (d['_b'], d['_i'])) for d in ds)
     return False
 
 
@@ -819,6 +1043,11 @@ def prove_subscript(prog, V, site):
     names = V.spellings(idx)
     facts = sorted('%s %s %s' % (a[1], a[0], a[2]) for a in A if a[1] in names or a[2] in names)
     bound = ix.get('bound')
+    if bound is None:
+        # the array is reached through a pointer that holds its address (`int *p = obj->arr; p[i]`)
+        cap = V.capacity(ix['base'])
+        if cap is not None and cap[0] is not None:
+            bound = cap[0]
     lo, hi = V.range(idx, pt)
     if bound is not None:
         if lo >= 0 and hi < bound:
@@ -827,8 +1056,17 @@ def prove_subscript(prog, V, site):
     arr = V.array_id(ix['base'])
     ctr = slot_counter(prog)
     if arr and arr[0] == 'field' and isinstance(arr[-1], tuple) and arr[-1][0] == ctr[0] and arr[-1][1] != ctr[1]:
-        kinds = _idx_kinds(V, idx, ctr)
+        kinds = _idx_kinds(V, idx, ctr, (), pt)
         tag = 'INDEX-GUARD: ' if 'fdindex' in kinds else ''
+        # relational proof: the index equals "counter at entry + k" on every path, and the slot counter itself held both a
+        # value <= that and a value > that during this activation; the counter always lies in [0, capacity]
+        offs, oval = _slot_offsets(prog, V, ctr)
+        S = offs.get(pt, {})
+        o = oval(idx, S)
+        if o is not None and 'MAX' in S and 'MIN' in S and S['MIN'] <= o < S['MAX']:
+            return (tag + 'the index is (slot counter at entry)%+d and the slot counter itself held the values entry%+d and entry%+d '
+                    'during this activation, so the index is below a value of the counter and not below another; ' % (o, S['MIN'], S['MAX'])
+                    + SLOT_ASSUMPTION, '')
         if 'other' not in kinds:
             fresh = any(a[0] == 'from++' and a[1] in names and a[2] in _counter_spellings(V, ctr) for a in A)
             if fresh:
@@ -845,7 +1083,7 @@ def prove_subscript(prog, V, site):
                 if last_member(x) == ctr:
                     c_ok = bool(ad.get(pt))
                 else:
-                    ds = V.defs.get(var_name(x) or '', [])
+                    ds = V.defs_at(var_name(x) or '', pt)
                     c_ok = bool(ds) and all(ad.get((d['_b'], d['_i'])) for d in ds if last_member(d.get('rhs')) == ctr)
                 ok = ok and c_ok
                 why.append('the slot counter after it was lowered (the last occupied slot); ' + SLOT_ASSUMPTION if c_ok
@@ -854,15 +1092,23 @@ def prove_subscript(prog, V, site):
                 return (tag + '; '.join(why), '')
             return (None, tag + '; '.join(why) + '; facts holding here: %s' % (facts or 'none about the index'))
         for (u, ue) in _upper_terms(V, idx, pt):
-            if lo >= 0 and _counter_valued(V, ue, ctr):
+            if lo >= 0 and _counter_valued(V, ue, ctr, (), pt):
                 return ('loop index in [0, %s) with %s the number of occupied slots' % (u, u), '')
         return (None, 'index `%s` of a slot array is neither a guarded slot index, nor the slot counter, nor a loop index below it; facts here: %s'
                 % (ic, facts or 'none'))
     for (u, ue) in _upper_terms(V, idx, pt):
-        if lo >= 0 and _kernel_count(V, ue, arr):
+        if lo >= 0 and _kernel_count(V, ue, arr, (), pt):
             return ('loop index in [0, %s) with %s the count the kernel returned for this very array' % (u, u), '')
     return (None, 'no constant bound, occupied-slot count or kernel-returned count bounds index `%s` (range [%s, %s]); facts here: %s'
             % (ic, _fmt(lo), _fmt(hi), facts or 'none'))
+
+
+def _slot_offsets(prog, V, ctr):
+    c = V.__dict__.get('_slot_offs')
+    if c is None:
+        c = V._slot_offs = h18.counter_offsets(
+            V, lambda l: strip(l).get('k') == 'member' and last_member(l) == ctr, h18.transitive_writers(prog, ctr[0], ctr[1]))
+    return c
 
 
 def _counter_spellings(V, ctr):
@@ -899,17 +1145,20 @@ def element_addresses(e):
     return out
 
 
-def _collect_subscripts(V, events):
+def _collect_subscripts(V, events, context=False):
+    """{(location, kind, position): [(event, index node)]}.  Subscripts whose index is a literal in the source are the
+    compiler's business; in a calling context (context=True) a parameter may have been replaced by the caller's
+    constant, and that copy of the site is kept and checked against the bound like any other."""
     out = {}
     for e in events:
         if e['ev'] in ('load', 'store'):
             for pos, ix in enumerate(subscripts(e)):
-                if strip(ix['idx']).get('k') == 'int':
+                if strip(ix['idx']).get('k') == 'int' and not context:
                     continue
                 out.setdefault((e['loc'], e['ev'], pos), []).append((e, ix))
         if e['ev'] in ('store', 'call', 'enter', 'ret'):
             for pos, ix in enumerate(element_addresses(e)):
-                if strip(ix['idx']).get('k') == 'int':
+                if strip(ix['idx']).get('k') == 'int' and not context:
                     continue
                 out.setdefault((e['loc'], '&' + e['ev'].replace('enter', 'call'), pos), []).append((e, ix))
     return out
@@ -1002,7 +1251,7 @@ def prove_write(prog, V, e):
         arr = V.array_id(dst)
         ctr = slot_counter(prog)
         if unit == 'elems' and arr and arr[0] == 'field' and isinstance(arr[-1], tuple) and arr[-1][0] == ctr[0] and arr[-1][1] != ctr[1] \
-                and _counter_valued(V, ln, ctr):
+                and _counter_valued(V, ln, ctr, (), pt):
             return ('the kernel is told the number of occupied slots of the slot array; ' + SLOT_ASSUMPTION, '')
         return (None, 'size of the destination `%s` is not known here' % canon(dst))
     nel, esz, sym = cap
@@ -1028,7 +1277,7 @@ def prove_write(prog, V, e):
     return (None, 'length `%s` ranges over [%s, %s], destination %s holds %s' % (canon(ln), _fmt(lo), _fmt(hi), canon(d), what))
 
 
-def _collect_writes(V, events):
+def _collect_writes(V, events, context=False):
     out = {}
     for e in events:
         if e['ev'] == 'call' and (e.get('callee') in WRITERS or e.get('callee') == 'sscanf'):
@@ -1136,16 +1385,26 @@ def tls_hooks(ctx):
             ctx.ob('R-C18i', '%s:%s.%s' % (name, area, fld), ok, loc=u['_loc'],
                    detail='%s records are linked into %s.%s (%s); the module must have a deinit_thread hook that visits that list: %s'
                           % (l0[1], area, fld, l0[2].name, fde.name if fde is not None else 'MISSING'))
-    # the registration list, by role: what the public iv_tls_user_register appends the user to
+    # the registration list, by role: the file-scope list head (a variable of its own or a member of a file-scope
+    # object) that the public iv_tls_user_register mentions
+    def list_heads(g, unit):
+        out = set()
+        conds = [b.term['cond'] for b in g.blocks.values() if b.term and b.term.get('cond') is not None]
+        for src in (list(g.events()), conds):
+            for y in src:
+                for x in walk(y):
+                    if x.get('k') == 'var' and x.get('vk') in ('global', 'staticlocal'):
+                        gl = prog.global_for(unit, x['name'])
+                        if gl is not None and gl.get('record') == 'iv_list_head' and not gl.get('ptr'):
+                            out.add((x['name'],))
+                    elif x.get('k') == 'member' and x.get('trecord') == 'iv_list_head' and not x.get('tptr'):
+                        pk = path_key(x)
+                        if pk and pk[0] is not None:
+                            out.add(pk)
+        return out
     freg = prog.fn('iv_tls_user_register')
     reg = Inliner(prog).inline(freg)
-    lists = set()
-    for e in reg.events():
-        for x in walk(e):
-            if x.get('k') == 'var' and x.get('vk') in ('global', 'staticlocal'):
-                gl = prog.global_for(prog.unit_of(freg), x['name'])
-                if gl is not None and gl.get('record') == 'iv_list_head' and not gl.get('ptr'):
-                    lists.add(x['name'])
+    lists = list_heads(reg, prog.unit_of(freg))
     if len(lists) != 1:
         raise AnalysisBroken('iv_tls_user_register: registration list not identified (%s)' % sorted(lists))
     lst = lists.pop()
@@ -1155,12 +1414,9 @@ def tls_hooks(ctx):
     def walks(f, hk):
         g = Inliner(prog).inline(f)
         calls = any(e['ev'] == 'call' and last_member(e.get('fnexpr')) == ('iv_tls_user', hk) for e in g.events())
-        conds = [b.term['cond'] for b in g.blocks.values() if b.term and b.term.get('cond') is not None]
-        mentions = any(x.get('k') == 'var' and x['name'] == lst and x.get('vk') in ('global', 'staticlocal')
-                       for src in (list(g.events()), conds) for y in src for x in walk(y))
-        return calls and mentions
+        return calls and lst in list_heads(g, prog.unit_of(f))
     ctx.ob('R-C18i', 'iv_tls_thread_deinit:visits-every-user', walks(td, 'deinit_thread') and walks(ti, 'init_thread'), loc=td.loc,
-           detail='thread init and tear-down both walk the list registration appends to (%s)' % lst, fn=td.q)
+           detail='thread init and tear-down both walk the list registration appends to (%s)' % '.'.join(str(x) for x in lst), fn=td.q)
 
 
 # --------------------------------------------------------------------------
@@ -1185,6 +1441,15 @@ def _lin(x, ref, offs):
         return 0
     if ref[0] == 'var' and x.get('k') == 'var' and x['name'] == ref[1]:
         return 0
+    if x.get('k') == 'incdec':
+        # `--d` / `d--` as a value: the step itself is a store event of its own that precedes the embedding event,
+        # so the operand already has its new value here; the postfix forms yield the value before the step
+        c = _lin(x['e'], ref, offs)
+        if c is None:
+            return None
+        if x.get('prefix'):
+            return c
+        return c - 1 if x['op'] == '++' else c + 1
     if x.get('k') == 'bin' and x['op'] in ('+', '-'):
         c = _intval(x['r'])
         l = _lin(x['l'], ref, offs)
@@ -1207,7 +1472,7 @@ def _child_of(x):
     return None
 
 
-def level_offsets(g, ref, init):
+def level_offsets(g, ref, init, V=None):
     """Forward analysis of  level(node variable) - ref  and  value(int local) - ref, where ref is the tree
     depth (a state field) or the level parameter of a recursive release.  'ROOT' stands for the node the
     state's root pointer designates.  Returns {point: {key: offset}}."""
@@ -1236,6 +1501,11 @@ def level_offsets(g, ref, init):
     def tr(e, Sf):
         if e['ev'] != 'store':
             return Sf
+        if V is not None and any(x.get('k') == 'deref' or (x.get('k') == 'member' and x.get('arrow')) for x in walk(e['lhs'])):
+            # the depth / the root reached through a pointer that holds the field's address
+            e = dict(e, lhs=h18.deref_norm(V, e['lhs']))
+        if V is not None and 'rhs' in e:
+            e = dict(e, rhs=h18.deref_norm(V, e['rhs']))
         S = dict(Sf)
         if is_ref_store(e):
             d = None
@@ -1255,7 +1525,11 @@ def level_offsets(g, ref, init):
         if l.get('k') == 'var':
             n = l['name']
             S.pop(('n', n), None)
-            S.pop(('i', n), None)
+            io = S.pop(('i', n), None)
+            if io is not None and e['op'] in ('++', '--'):
+                S[('i', n)] = io + (1 if e['op'] == '++' else -1)
+            elif io is not None and e['op'] in ('+=', '-=') and _intval(e.get('rhs')) is not None:
+                S[('i', n)] = io + _intval(e['rhs']) * (1 if e['op'] == '+=' else -1)
             if e['op'] == '=' and 'rhs' in e:
                 o = node_off(e['rhs'], dict(Sf))
                 if o is not None:
@@ -1291,38 +1565,66 @@ def level_offsets(g, ref, init):
 def radix(ctx):
     prog = ctx.prog
     # role: functions that free a radix node handed to them (subtree release)
-    freers = {}
+    cands = {}
     for f in prog.all_funcs():
         nodes = [p['name'] for p in f.params if p.get('record') == NODE and p.get('ptr')]
         if not nodes or not f.blocks:
             continue
         if any(e['ev'] == 'call' and is_call(e, 'free') and e['args'] and var_name(e['args'][0]) in nodes for e in f.events()):
             ints = [p['name'] for p in f.params if p['type'].replace('const ', '').strip() in ('int', 'unsigned int', 'unsigned')]
-            if len(ints) != 1:
-                raise AnalysisBroken('%s frees a radix node but has no single level parameter' % f.name)
-            freers[f.q] = (f, nodes[0], ints[0], [p['name'] for p in f.params])
-    if not freers:
+            if not ints:
+                raise AnalysisBroken('%s frees a radix node but has no level parameter' % f.name)
+            cands[f.q] = (f, nodes[0], ints, [p['name'] for p in f.params])
+    if not cands:
         raise AnalysisBroken('no function frees a radix node handed to it (subtree release not found)')
-    fnames = {v[0].name for v in freers.values()}
+    fnames = {v[0].name for v in cands.values()}
+    stop_at_release = lambda t: t.q in cands
+
+    def self_calls(f, g):
+        return [e for e in g.events() if e['ev'] == 'call' and e.get('callee') == f.name
+                and prog.resolve(prog.unit_of(f), e['callee']) is f]
+
+    # the level parameter, by role: the one integer parameter whose own value (plus a constant) the function hands on in
+    # that position whenever it re-enters itself (directly or through helpers, which are inlined); other integer
+    # parameters (a first-slot number, a flag) are not passed on that way
+    freers = {}
+    bodies = {}
+    for q, (f, pn, ints, pnames) in sorted(cands.items()):
+        g = Inliner(prog, stop=stop_at_release).inline(f)
+        bodies[q] = g
+        lvl = ints
+        if len(ints) > 1:
+            lvl = []
+            for pl in ints:
+                offs, _ = level_offsets(g, ('var', pl), {('n', pn): 0}, view_of(prog, g))
+                rc_ = self_calls(f, g)
+                if rc_ and all(_lin(e['args'][pnames.index(pl)], ('var', pl), offs.get((e['_b'], e['_i']), {})) is not None for e in rc_):
+                    lvl.append(pl)
+        if len(lvl) != 1:
+            raise AnalysisBroken('%s frees a radix node but its level parameter is not identified (%s)' % (f.name, lvl))
+        freers[q] = (f, pn, lvl[0], pnames)
 
     def freer_of(f, e):
         t = prog.resolve(prog.unit_of(f), e['callee']) if 'callee' in e else None
         return freers.get(t.q) if t is not None else None
 
-    # contract inside each release function: level(node parameter) == level parameter
+    # contract inside each release function (its helpers inlined): level(node parameter) == level parameter
     for q, (f, pn, pl, pnames) in sorted(freers.items()):
-        V = view_of(prog, f)
-        offs, node_off = level_offsets(f, ('var', pl), {('n', pn): 0})
-        rec = [e for e in f.events() if e['ev'] == 'call' and e.get('callee') in fnames]
+        g = bodies[q]
+        V = view_of(prog, g)
+        offs, node_off = level_offsets(g, ('var', pl), {('n', pn): 0}, V)
+        rec = [e for e in g.events() if e['ev'] == 'call' and e.get('callee') in fnames]
         okr, why = True, []
+        sites_ = set()
         for e in rec:
             tgt = freer_of(f, e)
             if tgt is None:
                 continue
+            sites_.add(e['loc'])
             S = offs.get((e['_b'], e['_i']), {})
             ai, li = tgt[3].index(tgt[1]), tgt[3].index(tgt[2])
             x, lv = e['args'][ai], e['args'][li]
-            par = _child_of(x)
+            par = _child_of(V.resolve(x)) if _child_of(x) is None else _child_of(x)
             o = node_off(par, S) if par is not None else None
             c = _lin(lv, ('var', pl), S)
             A = V.at(e)
@@ -1337,10 +1639,10 @@ def radix(ctx):
             if not (atoms_imply(A, '!=', pl, str(-o)) or atoms_imply(A, '>', pl, str(-o)) or atoms_imply(A, '>=', pl, str(1 - o))):
                 okr = False
                 why.append('descent not guarded by %s != %d' % (pl, -o))
-        ctx.ob('R-C18a.radix', 'subtree-release:descends-only-above-leaves', okr and bool(rec), loc=f.loc,
-               detail='; '.join(why) or 'recursion into child[i] only where the level is non-zero and with level - 1 (%d sites)' % len(rec), fn=f.q)
-        own = must_pass(f, lambda e: e['ev'] == 'call' and is_call(e, 'free') and e['args'] and var_name(e['args'][0]) == pn)
-        ctx.ob('R-C18a.radix', 'subtree-release:frees-the-node', bool(own.get((f.exit, 0))), loc=f.loc,
+        ctx.ob('R-C18a.radix', 'subtree-release:descends-only-above-leaves', okr and bool(sites_), loc=f.loc,
+               detail='; '.join(why) or 'recursion into child[i] only where the level is non-zero and with level - 1 (%d sites)' % len(sites_), fn=f.q)
+        own = must_pass(g, lambda e: e['ev'] == 'call' and is_call(e, 'free') and e['args'] and var_name(V.resolve(e['args'][0])) == pn)
+        ctx.ob('R-C18a.radix', 'subtree-release:frees-the-node', bool(own.get((g.exit, 0))), loc=f.loc,
                detail='the node itself is freed on every path', fn=f.q)
     # callers of the release: the level they pass is the true level of the subtree.  Modular argument over the
     # timer module's entry points (nearest non-static / address-taken functions above the sites): assuming the
@@ -1372,7 +1674,8 @@ def radix(ctx):
     allneed.update(need)
     for q in sorted(allneed):
         g = Inliner(prog, stop=lambda t: t.q in freers).inline(allneed[q])
-        offs, node_off = level_offsets(g, ('field', DEPTH), {'ROOT': 0})
+        Vg = view_of(prog, g)
+        offs, node_off = level_offsets(g, ('field', DEPTH), {'ROOT': 0}, Vg)
         if q in wneed:
             S = offs.get((g.exit, 0), {})
             ctx.ob('R-C18a.radix', '%s:tree-invariant-preserved' % allneed[q].name, S.get('ROOT') == 0 or 'GONE' in S, loc=allneed[q].loc,
@@ -1384,11 +1687,12 @@ def radix(ctx):
             tgt = [v for v in freers.values() if v[0].name == e['callee']][0]
             S = offs.get((e['_b'], e['_i']), {})
             ai, li = tgt[3].index(tgt[1]), tgt[3].index(tgt[2])
-            par = _child_of(e['args'][ai])
-            o = node_off(par, S) if par is not None else node_off(e['args'][ai], S)
+            anode, alevel = h18.deref_norm(Vg, e['args'][ai]), h18.deref_norm(Vg, e['args'][li])
+            par = _child_of(anode)
+            o = node_off(par, S) if par is not None else node_off(anode, S)
             if par is not None and o is not None:
                 o -= 1
-            c = _lin(e['args'][li], ('field', DEPTH), S)
+            c = _lin(alevel, ('field', DEPTH), S)
             ok = o is not None and c is not None and o == c
             det = ('subtree at level depth%+d handed on as level depth%+d' % (o, c)) if (o is not None and c is not None) \
                 else 'level of the subtree or of the argument not established (node %s, level %s)' % (o, c)
@@ -1409,6 +1713,11 @@ def radix(ctx):
     dsp = {canon(x) for e in gd.events() for x in walk(e) if x.get('k') == 'member' and (x.get('record'), x['field']) == DEPTH}
     dsp |= {canon(x) for b in gd.blocks.values() if b.term and b.term.get('cond') for x in walk(b.term['cond'])
             if x.get('k') == 'member' and (x.get('record'), x['field']) == DEPTH}
-    ctx.ob('R-C18a.radix', 'timer_deinit:all-levels-removed',
-           'iv_timer_deinit' in reached_from and any(a[0] == '==' and a[1] in dsp and a[2] == '0' for a in A), loc=d.loc,
+    # ... or a local that provably differs from the depth by a constant there (a countdown stepped once per removed
+    # level): `n <= o` with n == depth + o says depth <= 0; a depth counts levels and is never negative
+    doffs, _ = level_offsets(gd, ('field', DEPTH), {'ROOT': 0}, Vd)
+    cands = [(n_, 0) for n_ in dsp]
+    cands += [(k[1], v) for k, v in doffs.get((gd.exit, 0), {}).items() if isinstance(k, tuple) and k[0] == 'i']
+    none_left = any(atoms_imply(A, '==', n_, str(o)) or atoms_imply(A, '<=', n_, str(o)) for (n_, o) in cands)
+    ctx.ob('R-C18a.radix', 'timer_deinit:all-levels-removed', 'iv_timer_deinit' in reached_from and none_left, loc=d.loc,
            detail='iv_timer_deinit reaches the level removal and returns only with the depth == 0', fn=d.q)
